@@ -879,19 +879,24 @@ class Builder(object):
 
         prefix += '/' + self.currentHouse.name #extra slashes are ignored
 
-        if rxa:
-            if ':' in rxa:
-                host, port = rxa.split(':')
-                sha = (host, int(port))
-            else:
-                sha = (rxa, sha[1])
+        try:
+            if rxa:
+                if ':' in rxa:
+                    host, port = rxa.split(':')
+                    sha = (host, int(port))
+                else:
+                    sha = (rxa, sha[1])
 
-        if txa:
-            if ':' in txa:
-                host, port = txa.split(':')
-                dha = (host, int(port))
-            else:
-                dha = (txa, dha[1])
+            if txa:
+                if ':' in txa:
+                    host, port = txa.split(':')
+                    dha = (host, int(port))
+                else:
+                    dha = (txa, dha[1])
+        except ValueError:
+            msg = "ParseError: Building verb '%s'. Bad address rx '%s' tx '%s'" % \
+                (command, rxa, txa)
+            raise excepting.ParseError(msg, tokens, index)
 
         server = serving.Server(name=name, store = self.currentStore,)
         kw = dict(period=period, schedule=schedule, sha=sha, dha=dha, prefix=prefix,)
